@@ -547,6 +547,8 @@ def lark_corpus():
     c["ignore_multichar"] = ('start: A+\nA: "a"\nC: "--"\n%ignore C\n', "a-", "a-x")
     c["ignore_multibyte"] = ('start: A B\nA: "é"\nB: "a"\nWS: /[ ü]/\n%ignore WS\n', "éa ü", "éa üx")
     c["ignore_star"] = ('start: A*\nA: "a" | "b"\nWS: /[ ]+/\n%ignore WS\n', "ab ", "ab x")
+    # a terminal that is both ignored and used explicitly in a rule (seeded change C19-4)
+    c["ignored_and_explicit"] = ('start: "a" (WS "b")* C\nC: /c+/\nWS: " "\n%ignore WS\n', "abc ", "abc x")
     c["neg_class_charset"] = ('start: A "!"\nA: /[^a!]+/\n', "ab!", "ab!c")
     c["dot_charset"] = ('start: /./ "a"\n', "ab\n", "ab\nc")
     c["dot_core"] = ('start: /.b?/\n', "ab\n", "core")
